@@ -85,6 +85,7 @@ def qbits_scenario(prop, kn, sym, alpha_kind, use_ste):
       k, p, lo, hi, spec = qbits_spec(x.e, n, integer, kn, sym, scale)
       ip.assume(z3.And(z3.ToReal(RND(p)) - p <= half(), p - z3.ToReal(RND(p)) <= half()))
       s.vars.update({"p": p, "k": k})
+      s.replay["format"] = {"unit": scale * P(integer - n), "lo": R(lo), "hi": R(hi), "surrogate": "identity"}
       s.claim("code", ret == spec)
       if prop == "C02":
         kr = z3.ToReal(k)
@@ -161,6 +162,10 @@ def generic_scenario(prop, build, idem=True, enclosed=True):
     s.vars.update({"p": sp["p"], "k": sp["k"]})
     s.claim("code", ret == sp["value"])
     k, p, lo, hi = sp["k"], sp["p"], sp["lo"], sp["hi"]
+    if s.replay is not None:
+      fmt = dict(s.replay.get("format", {}))
+      fmt.update({"unit": sp["unit"], "lo": R(lo), "hi": R(hi), "surrogate": sp.get("surrogate", "identity")})
+      s.replay["format"] = fmt
     kr = R(k)
     if prop == "C02":
       s.claim("nearest", z3.Implies(z3.And(R(lo) <= p, p <= R(hi)),
@@ -216,7 +221,7 @@ def qrelu_build(slope, use_ste):
       hints = [n, integer, n - integer, integer - n]
       if not slope:
         return dict(value=z3.ToReal(kpos) * P(integer - n), k=kpos, p=p, lo=z3.IntVal(0), hi=hi,
-                    unit=P(integer - n), hints=hints)
+                    unit=P(integer - n), hints=hints, surrogate="identity")
       sl = zreal(slope)
       ps = I.mul_norm(p, sl)
       rnd_axiom(ip_, ps)
@@ -229,7 +234,7 @@ def qrelu_build(slope, use_ste):
       return dict(value=k * P(integer - n), k=k, p=psur, lo=lo, hi=hi, unit=P(integer - n),
                   hints=hints + [n - integer - j, n - 1, n - 2],
                   cong=[(x, P(n - integer), z3.RealVal(2 ** j) * P(n - integer - j))],
-                  int_code=(n >= j), skip=("sat_lo",))
+                  int_code=(n >= j), skip=("sat_lo",), surrogate="leaky:%s" % slope)
     return q, spec
   return build
 
@@ -284,7 +289,8 @@ def qtanh_build(sym, real):
       lo = -I.IPOW2(n) + int(sym)
       hi = I.IPOW2(n) - 1
       k = clipz(RND(p), lo, hi)
-      out = dict(value=z3.ToReal(k) * P(-n), k=k, p=p, lo=lo, hi=hi, unit=P(-n), hints=[n, -n])
+      out = dict(value=z3.ToReal(k) * P(-n), k=k, p=p, lo=lo, hi=hi, unit=P(-n), hints=[n, -n],
+                 surrogate="real_tanh" if real else "hard_tanh")
       if real:
         f = z3.Function("tanh", z3.RealSort(), z3.RealSort())
         out["mono2"] = lambda a, b: []
@@ -313,7 +319,8 @@ def qsigmoid_build(sym, real):
       lo = z3.IntVal(int(sym))
       hi = I.IPOW2(n) - 1
       k = clipz(RND(p), lo, hi)
-      return dict(value=z3.ToReal(k) * P(-n), k=k, p=p, lo=lo, hi=hi, unit=P(-n), hints=[n, -n])
+      return dict(value=z3.ToReal(k) * P(-n), k=k, p=p, lo=lo, hi=hi, unit=P(-n), hints=[n, -n],
+                  surrogate="real_sigmoid" if real else "hard_sigmoid")
     return q, spec
   return build
 
